@@ -22,6 +22,10 @@ def run(ctx, rep):
         check_edges(crate, rep, cfg)
         check_walk(crate, rep, cfg)
         c07.check_rec_vm(crate, rep, cfg, "R-REC.vm")
+        # the two render-time backstops only bound mixed recursion (component -> include -> component ..., invisible at add time because a
+        # component call is not an include edge) if each child VM carries BOTH counters on: shared with C05.REC
+        from props import c05
+        c05.check_rec(crate, rep, cfg)
 
 
 def check_run(crate, rep, cfg):
